@@ -35,6 +35,8 @@ Ctl ==
   \* ... or closes its connection altogether, and the receiver sends a PING some time later
   \/ (\E s \in Streams : q[s] # <<>>) /\ ASendCloseFull /\ hist' = Append(hist, Rec("close_full", 0, 0, 0, FALSE, "-", 0))
   \/ sets.gone /\ BSendPing /\ hist' = Append(hist, Rec("bping", 0, 0, 0, FALSE, "-", 0))
+  \* the receiver resets a stream on which the sender goes on sending for a while
+  \/ \E s \in Streams : sentLog[s] # <<>> /\ BSendRst(s) /\ hist' = Append(hist, Rec("brst", s, 0, 0, FALSE, "-", 0))
   \/ \E s \in Streams \cup {0}, i \in Incs :
         BCtl([t |-> "WU", s |-> s, v |-> i]) /\ hist' = Append(hist, Rec("ctl", s, 0, 0, FALSE, "WU", i))
   \/ ~aClosed /\ \E v \in InitWins : BCtl([t |-> "SI", s |-> 0, v |-> v]) /\ hist' = Append(hist, Rec("ctl", 0, 0, 0, FALSE, "SI", v))
